@@ -61,10 +61,28 @@ def run_check(prop, tier):
     except core.HarnessError as e:
         print(f"HARNESS-ERROR property={prop}: {e}")
         return 2
-    except Exception:  # noqa: BLE001
-        print(f"HARNESS-ERROR property={prop}: unexpected exception in the machinery")
-        traceback.print_exc()
-        return 2
+    except Exception as e:  # noqa: BLE001
+        # while the work was being planned in this process (default executions, roots of the exploration): an exception that starts inside the
+        # library and that no harness anticipated is a finding about the tree, exactly as in a worker; anything else is the machinery's fault
+        tb, last = e.__traceback__, None
+        while tb is not None:
+            last = tb.tb_frame.f_code.co_filename
+            tb = tb.tb_next
+        import aiohomekit
+
+        if last and last.startswith(os.path.dirname(os.path.abspath(aiohomekit.__file__)) + os.sep):
+            ctx.acc.case(key=("library-exception-while-planning",), outcome=f"unanticipated-exception-from-the-library:{type(e).__name__}")
+            ctx.acc.violation(f"unanticipated-exception-from-the-library:{type(e).__name__}:while-planning", "library-exception", {"phase": "planning"},
+                              {"error": f"{type(e).__name__}: {e}"[:300], "traceback_tail": traceback.format_exc()[-1500:]})
+            try:
+                rc = core.finish(ctx)
+            except Exception:  # noqa: BLE001
+                traceback.print_exc()
+                return 2
+        else:
+            print(f"HARNESS-ERROR property={prop}: unexpected exception in the machinery")
+            traceback.print_exc()
+            return 2
     a = ctx.acc
     path = os.path.join(core.OUT, "evidence", f"{prop}.json")
     if not validate_evidence(path) and rc == 0:
